@@ -4,6 +4,7 @@ pub mod c02;
 pub mod c05;
 pub mod c06;
 pub mod c07;
+pub mod c08;
 pub mod c17;
 pub mod c18;
 pub mod c20;
@@ -15,6 +16,7 @@ pub fn dispatch(prop: &str, run: Run) -> Option<i32> {
         "C05" => c05::run(run),
         "C06" => c06::run(run),
         "C07" => c07::run(run),
+        "C08" => c08::run(run),
         "C17" => c17::run(run),
         "C18" => c18::run(run),
         "C20" => c20::run(run),
